@@ -343,6 +343,18 @@ _bucket_set(Bucket *self, PyObject *keyarg, PyObject *v,
     VALUE_TYPE value = {0};    /* squash nuisance warning */
     int result = -1;    /* until proven innocent */
     int copied = 1;
+    /* What a replacement or a deletion removes from the bucket is released
+     * only at the very end, when the bucket is consistent again and no
+     * longer in use (and, inside a tree operation, when the tree is):
+     * releasing an object may run arbitrary code (a finalizer, a weakref
+     * callback) that looks at this bucket.
+     */
+#ifdef KEY_TYPE_IS_PYOBJECT
+    PyObject *dead_key = NULL;
+#endif
+#ifdef VALUE_TYPE_IS_PYOBJECT
+    PyObject *dead_value = NULL;
+#endif
 
     COPY_KEY_FROM_ARG(key, keyarg, copied);
     UNLESS(copied)
@@ -391,7 +403,9 @@ _bucket_set(Bucket *self, PyObject *keyarg, PyObject *v,
 #endif
             if (changed)
                 *changed = 1;
-            DECREF_VALUE(self->values[i]);
+#ifdef VALUE_TYPE_IS_PYOBJECT
+            dead_value = self->values[i];
+#endif
             COPY_VALUE(self->values[i], value);
             INCREF_VALUE(self->values[i]);
             if (PER_CHANGED(self) >= 0)
@@ -400,7 +414,9 @@ _bucket_set(Bucket *self, PyObject *keyarg, PyObject *v,
         }
 
         /* The key exists at index i, and should be deleted. */
-        DECREF_KEY(self->keys[i]);
+#ifdef KEY_TYPE_IS_PYOBJECT
+        dead_key = self->keys[i];
+#endif
         self->len--;
         if (i < self->len)
             memmove(self->keys + i, self->keys + i+1,
@@ -408,7 +424,9 @@ _bucket_set(Bucket *self, PyObject *keyarg, PyObject *v,
 
         if (self->values)
         {
-            DECREF_VALUE(self->values[i]);
+#ifdef VALUE_TYPE_IS_PYOBJECT
+            dead_value = self->values[i];
+#endif
             if (i < self->len)
                 memmove(self->values + i, self->values + i+1,
                         sizeof(VALUE_TYPE)*(self->len - i));
@@ -473,6 +491,12 @@ _bucket_set(Bucket *self, PyObject *keyarg, PyObject *v,
 
 Done:
     PER_UNUSE(self);
+#ifdef KEY_TYPE_IS_PYOBJECT
+    release_after_tree_op(dead_key);
+#endif
+#ifdef VALUE_TYPE_IS_PYOBJECT
+    release_after_tree_op(dead_value);
+#endif
     return result;
 }
 
